@@ -45,6 +45,21 @@ if [ "$R_APPLY" = ok ] && apply "$WT"; then
   done
   (cd "$WT" && git reset -q --hard HEAD && git clean -fdq)
 fi
+if [ -n "${SKIP_CONFIRM:-}" ] && [ -n "${UPDATE_META:-}" ] && [ -f "$OUT/meta.json" ]; then
+  # fast re-validation: keep the confirmation of the earlier full run, refresh "applies" and the check exit codes
+  python3 - "$OUT/meta.json" "$R_APPLY" "{${RESULTS%, }}" <<'PYEOF'
+import json, sys
+path, applies, results = sys.argv[1], sys.argv[2], json.loads(sys.argv[3])
+m = json.load(open(path))
+m.setdefault("confirmed", {})["applies"] = applies
+if applies == "ok":
+    m.setdefault("check_exit_codes", {}).update(results)
+else:
+    m["check_exit_codes"] = {}
+m["revalidated"] = "check exit codes refreshed by a fast re-run (change applied, checks run; suite and demonstration as confirmed before)"
+json.dump(m, open(path, "w"), indent=1)
+PYEOF
+fi
 if [ -z "${SKIP_CONFIRM:-}" ]; then
 cat > "$OUT/meta.json" <<EOF
 {"id": "$NAME", "property": "$PROP", "source": "$MUT",
